@@ -20,7 +20,14 @@ func (h *vHist) checkLookups(tag string, acc []bool, retained func(i int) bool) 
 		return
 	}
 	for i := range h.hdr {
-		if !acc[i] || !h.linked[i] {
+		if !acc[i] {
+			// a header that was refused (and never accepted) is unknown to every lookup
+			_, _, cerr := h.repo.CheckHeader(h.ctx, h.hash[i])
+			_, _, _, gerr := h.repo.GetHeader(h.ctx, h.hash[i])
+			verifAssert(h.repo.HashHeight(h.hash[i]) == -1 && cerr != nil && gerr != nil, tag+"refused-header-known-to-lookups")
+			continue
+		}
+		if !h.linked[i] {
 			continue
 		}
 		onBest := h.isAncestor(i, tip)
@@ -111,6 +118,8 @@ func VerifC09Lookups() {
 	for k := h.setupState(); k > 0; k-- {
 		acc = append(acc, true)
 	}
+	// the symbolic submissions may be refused for fork depth (the construction is not)
+	h.cfg.MaxBranchDepth = verifParam("maxdepth", 1000)
 	for s := 0; s < steps; s++ {
 		op := pick(fmt.Sprintf("op%d", s), ops)
 		switch op {
